@@ -10,15 +10,17 @@ PROPS = {
                 dict(harness="VerifHarness_C12_quick", reach=["resume", "refuse"]),
                 dict(harness="VerifHarness_C12_rerun", reach=["rerun"]),
                 dict(harness="VerifHarness_C12_twice", reach=["resume", "refuse"]),
+                dict(harness="VerifHarness_C12_pending", reach=["resume", "refuse"]),
             ],
             "thorough": [
                 dict(harness="VerifHarness_C12_thorough", reach=["resume", "refuse", "rerun"]),
                 dict(harness="VerifHarness_C12_twice4", reach=["resume", "refuse"]),
+                dict(harness="VerifHarness_C12_pending", reach=["resume", "refuse"]),
             ],
         },
         bounds={
             "quick": "old file 2..3 statements, edited file 0..3 statements, every partial progress k, statement texts 1 fully symbolic byte each; third attempt in the rerun variant; "
-                     "twice-partial family: 2..3 statements, first stop k1, tail edited, second stop k2 >= k1 in the resumed run, then a fully symbolic third file of 0..3 statements",
+                     "entry-point family: the same through ExecuteN -> Pending -> Execute on a directory with a later file; twice-partial family: 2..3 statements, first stop k1, tail edited, second stop k2 >= k1 in the resumed run, then a fully symbolic third file of 0..3 statements",
             "thorough": "old file 2..5 statements, edited file 0..5 statements, every partial progress k, statement texts 2 fully symbolic bytes each, third attempt included; twice-partial family with 2..4 statements of 2 bytes; "
                         "assertion queries cross-checked on z3 5.1 and cvc5",
         },
@@ -625,7 +627,11 @@ def _c07_runs(tier):
             names += ["atlas", "atlas_names2"]
         for g in names:
             runs.append(dict(cfg, harness=f"VerifHarness_C07_{d}_{g}", reach=["read"], cross=(g not in ("atlas", "atlas_names2"))))
+    runs.append(dict(_lt, harness="VerifHarness_C07_sqlite_foreign2", reach=["read"]))
+    if tier == "thorough":
+        runs.append(dict(_pg, harness="VerifHarness_C07_postgres_foreign2", reach=["read"], cross=False))
     runs.append(dict(_my, harness="VerifHarness_C07_mysql_witness_reader", role="witness", key="C07-mysql-foreign-reader-escapes"))
+    runs.append(dict(_lt, harness="VerifHarness_C07_sqlite_witness_multiline", role="witness", key="C07-foreign-reader-multiline"))
     return runs
 
 PROPS["C07"] = dict(
@@ -636,8 +642,8 @@ PROPS["C07"] = dict(
                  "table and column names end in 1 fully symbolic byte (texts concrete), or whose default literal and column comment end in 1 fully "
                  "symbolic byte (names concrete), or whose table name ends in 3 and column name in 1 symbolic bytes drawn from {identifier quote, 'a'}; "
                  "formatters: Atlas default; golang-migrate, flyway and liquibase (plain files); goose and dbmate (own readers); "
-                 "read back with migrate.FileStmts and the dialect driver's ScanStmts",
-        "thorough": "same plus names and texts symbolic together (1 byte each) and 2-byte names",
+                 "SQLite also with 2-byte texts through the goose / dbmate readers; read back with migrate.FileStmts and the dialect driver's ScanStmts",
+        "thorough": "same plus names and texts symbolic together (1 byte each), 2-byte names, and 2-byte texts through the goose / dbmate readers for PostgreSQL",
     },
     assumptions=[
         "the default value is given as an HCL document gives it (raw text in schema.Literal, quoted by the planner)",
@@ -647,7 +653,7 @@ PROPS["C07"] = dict(
             "longer symbolic strings, enum values (see C15 finding)",
     claim="For every value of the symbolic bytes (quotes, semicolons, comment markers, backslashes, newlines, non-ASCII included) the statements read back "
           "from the written file are exactly the planned commands, same count, order and text, for each formatter/reader pair; the goose / dbmate readers on "
-          "MySQL texts that need backslash-escape awareness are the listed known finding.",
+          "MySQL texts that need backslash-escape awareness, and literals whose line break follows white space or a semicolon (line-based readers), are the listed known findings.",
     technique='bounded symbolic execution from go/ssa of planner -> formatter templates (the real parsed text/template trees) -> file -> real statement scanner, with identifier / literal bytes as z3 variables; branches and assertions decided by z3; counterexamples replayed natively',
     note="Bounded by string length and the one-table plan. Trusted: engine (incl. strconv.Quote run from source), template evaluator, z3.",
 )
